@@ -437,4 +437,44 @@ theorem run_scrollCore (vt : VTState) (hg : vt.ps = .ground) (rect : Rect) (d r 
     · exact hg
   · exact hg
 
+/-- The ICH/DCH loop over `k + 1` lines. -/
+theorem run_scrollLines (vt : VTState) (hg : vt.ps = .ground) (rect : Rect) (r : Int)
+    (hscr : 0 ≤ rect.top ∧ rect.top + rect.lines ≤ vt.lines ∧ 0 ≤ rect.left ∧ rect.left < vt.cols)
+    (hm : vt.top ≤ rect.top ∧ rect.top + rect.lines - 1 ≤ vt.bottom ∧ vt.left ≤ rect.left ∧ rect.left ≤ vt.right)
+    (k : Nat) (hk : (k : Int) + 1 ≤ rect.lines) :
+    run ((List.range (k + 1)).flatMap fun (i : Nat) => scrollLine (rect.top + (i : Int)) rect.left r) vt =
+    { vt with
+      grid := fun l c =>
+        if rect.top ≤ l ∧ l ≤ rect.top + (k : Int) ∧ rect.left ≤ c ∧ c ≤ vt.right then
+          (if rect.left ≤ c + r ∧ c + r ≤ vt.right then vt.grid l (c + r) else vt.blank)
+        else vt.grid l c,
+      row := rect.top + (k : Int), col := rect.left, pendingWrap := false } := by
+  induction k with
+  | zero =>
+    simp only [Nat.zero_add, List.range_one, List.flatMap_cons, List.flatMap_nil, List.append_nil]
+    rw [run_scrollLine vt hg _ _ r (by omega) (by omega) (by omega)]
+    apply VTState.ext <;> try rfl
+    · funext l c
+      simp only []
+      cells_omega
+  | succ k ih =>
+    rw [List.range_succ, List.flatMap_append, run_append, ih (by omega)]
+    simp only [List.flatMap_cons, List.flatMap_nil, List.append_nil]
+    rw [run_scrollLine]
+    · apply VTState.ext <;> try rfl
+      funext l c
+      simp only [VTState.blank]
+      cells_omega
+    · exact hg
+    · simp only []; omega
+    · simp only []; omega
+    · simp only []; omega
+
+theorem param_nn0 (a b : Nat) : param [[some a], [some b]] 0 = some a := rfl
+theorem param_nn1 (a b : Nat) : param [[some a], [some b]] 1 = some b := rfl
+theorem param_0n0 (b : Nat) : param [[none], [some b]] 0 = none := rfl
+theorem param_0n1 (b : Nat) : param [[none], [some b]] 1 = some b := rfl
+theorem param_00 : param [[none]] 0 = none := rfl
+theorem param_01 : param [[none]] 1 = none := rfl
+
 end Tickit.XTermDrv
